@@ -71,8 +71,9 @@ fn op() -> BoxedStrategy<Op> {
 struct GroupM {
     cursor: Id,
     pel: BTreeMap<Id, String>,
-    /// when each pending entry was last delivered or claimed (harness clock)
-    pel_time: BTreeMap<Id, std::time::Instant>,
+    /// when each pending entry was last delivered or claimed: the server stamped it somewhere
+    /// between the moment the harness started sending that command and the moment it had the reply
+    pel_time: BTreeMap<Id, (std::time::Instant, std::time::Instant)>,
     consumers: BTreeSet<String>,
     /// consumers named by a read or claim that delivered nothing: whether that creates them is
     /// not stated by the property; the first observation decides
@@ -475,6 +476,7 @@ fn run_history(server: &mut Server, ops: &[Op]) -> CaseResult {
                         cmd.push(bs("NOACK"));
                     }
                     cmd.extend([bs("STREAMS"), bs(KEYS[*k]), bs(">")]);
+                    let t_read_before = std::time::Instant::now();
                     let r = c.cmd(&cmd);
                     sent.push(cmd.clone());
                     let st = m[*k].clone();
@@ -499,7 +501,7 @@ fn run_history(server: &mut Server, ops: &[Op]) -> CaseResult {
                                 gm.delivered_ever.push(*idv);
                                 if !*noack {
                                     gm.pel.insert(*idv, CONSUMERS[*ci].to_string());
-                                    gm.pel_time.insert(*idv, std::time::Instant::now());
+                                    gm.pel_time.insert(*idv, (t_read_before, std::time::Instant::now()));
                                 }
                             }
                             if *noack && !want.is_empty() {
@@ -628,12 +630,14 @@ fn run_history(server: &mut Server, ops: &[Op]) -> CaseResult {
                                     must.push(*idv);
                                     continue;
                                 }
-                                let margin = std::time::Duration::from_millis(60);
+                                // sound whatever the scheduling: the server's idle time lies between
+                                // (claim sent - stamp at the latest) and (claim answered - stamp at the earliest)
+                                let margin = std::time::Duration::from_millis(3);
                                 let thr = std::time::Duration::from_millis(150);
                                 match gm.pel_time.get(idv) {
-                                    Some(t) => {
-                                        let idle_lo = t_before.saturating_duration_since(*t);
-                                        let idle_hi = t_after.saturating_duration_since(*t);
+                                    Some((stamp_lo, stamp_hi)) => {
+                                        let idle_lo = t_before.saturating_duration_since(*stamp_hi);
+                                        let idle_hi = t_after.saturating_duration_since(*stamp_lo);
                                         if idle_lo >= thr + margin {
                                             must.push(*idv);
                                         } else if idle_hi + margin > thr {
@@ -692,7 +696,7 @@ fn run_history(server: &mut Server, ops: &[Op]) -> CaseResult {
                                     labels.insert("xclaim-moved-an-entry");
                                 }
                                 gm.pel.insert(*idv, name.clone());
-                                gm.pel_time.insert(*idv, t_after);
+                                gm.pel_time.insert(*idv, (t_before, t_after));
                             }
                         }
                         None => {
@@ -797,7 +801,7 @@ pub fn run(tier: Tier, seed: u64, replay: Option<Value>) -> i32 {
         tier,
         seed,
         "exploration",
-        "generated histories (4..40 operations) over two streams, two groups and four consumers: XADD of 1-4 entries with explicit increasing IDs (same-millisecond sequences and later milliseconds), XGROUP CREATE at 0 / $ / an existing ID with and without MKSTREAM (also duplicates and missing streams), DESTROY, SETID (also backwards), CREATECONSUMER, DELCONSUMER, XREADGROUP > with and without COUNT and NOACK, XREADGROUP with explicit ID 0 (re-read of the consumer's own pending entries), XACK of delivered, already acknowledged, never added and repeated IDs, XCLAIM with min-idle 0, 150 ms (decided by the harness clock with a 60 ms margin, interleaved with 260 ms sleeps; the idle time restarts at every claim) and one hour, with and without JUSTID, of pending, acknowledged and unknown IDs, XDEL of entries that are not pending. A model (group cursor, pending map id -> owner, consumer set) decides every reply: > reads deliver exactly the entries after the cursor in ID order, each carrying its own payload; NOACK advances the cursor without pending entries; XACK/XCLAIM/DELCONSUMER counts and results. After every step, for every live group: XPENDING summary (total, min, max, per-consumer counts), XPENDING - + range overall and per consumer, XINFO GROUPS (consumers, pending, last-delivered-id) and XINFO CONSUMERS (names, pending) must all equal the model — these are the four stored representations of the pending set. Non-trivial = >= 2 consumers received entries and an XCLAIM moved an entry, a consumer with pending entries was deleted, an XACK named a repeated/unknown ID, a NOACK read delivered, or an explicit-ID re-read returned entries; distinct by hash of the history",
+        "generated histories (4..40 operations) over two streams, two groups and four consumers: XADD of 1-4 entries with explicit increasing IDs (same-millisecond sequences and later milliseconds), XGROUP CREATE at 0 / $ / an existing ID with and without MKSTREAM (also duplicates and missing streams), DESTROY, SETID (also backwards), CREATECONSUMER, DELCONSUMER, XREADGROUP > with and without COUNT and NOACK, XREADGROUP with explicit ID 0 (re-read of the consumer's own pending entries), XACK of delivered, already acknowledged, never added and repeated IDs, XCLAIM with min-idle 0, 150 ms (decided by the harness clock, soundly: the server's stamp lies between sending a command and having its reply; interleaved with 260 ms sleeps; the idle time restarts at every claim) and one hour, with and without JUSTID, of pending, acknowledged and unknown IDs, XDEL of entries that are not pending. A model (group cursor, pending map id -> owner, consumer set) decides every reply: > reads deliver exactly the entries after the cursor in ID order, each carrying its own payload; NOACK advances the cursor without pending entries; XACK/XCLAIM/DELCONSUMER counts and results. After every step, for every live group: XPENDING summary (total, min, max, per-consumer counts), XPENDING - + range overall and per consumer, XINFO GROUPS (consumers, pending, last-delivered-id) and XINFO CONSUMERS (names, pending) must all equal the model — these are the four stored representations of the pending set. Non-trivial = >= 2 consumers received entries and an XCLAIM moved an entry, a consumer with pending entries was deleted, an XACK named a repeated/unknown ID, a NOACK read delivered, or an explicit-ID re-read returned entries; distinct by hash of the history",
     ));
     ev.lock().unwrap().assumptions.push("delivery counters and idle times are not compared (the property does not state them); entries that are pending are never deleted by the generator (what then happens to the pending entry is not stated by the property); a > read with nothing to deliver may answer nil or an empty array".into());
     let mk = |_: usize| Server::start(ServerOpts::default());
@@ -828,7 +832,7 @@ pub fn run(tier: Tier, seed: u64, replay: Option<Value>) -> i32 {
             }
         };
     }
-    let cfg = LoopCfg { cases: tier.pick(5000, 100000), workers: 12, max_shrink_execs: 300, max_violations: std::env::var("FVH_MAX_VIOL").ok().and_then(|s| s.parse().ok()).unwrap_or(8) };
+    let cfg = LoopCfg { cases: tier.pick(5000, 40000), workers: 12, max_shrink_execs: 300, max_violations: std::env::var("FVH_MAX_VIOL").ok().and_then(|s| s.parse().ok()).unwrap_or(8) };
     let max_len = tier.pick(40, 80);
     crate::driver::run_cases(&ev, &cfg, || proptest::collection::vec(op(), 4..=max_len), mk, |s, ops: &Vec<Op>| run_history(s, ops), |ops| json!({"ops": ops.iter().map(op2j).collect::<Vec<_>>()}));
     let e = ev.lock().unwrap();
